@@ -232,6 +232,8 @@ def run_session(job):
                 r2.append(nm + l[len(l.split("\t")[0]):])
                 rd2.append((nm, rd[1]))
             recs, reads = r2, rd2
+            # a field of random text on every record: the BGZF copy then exceeds 64 KiB COMPRESSED (virtual offsets beyond 2^32)
+            recs = [l + "\tzr:Z:" + "".join(rnd.choice("ABCDEFGHIJKLMNOPQRSTUVWXYZabcdefghijklmnopqrstuvwxyz0123456789") for _ in range(70)) for l in recs]
         if pad < 0:       # chunk-boundary session: a record starts exactly at 65536 (and the file is longer than that)
             while sum(len(l) + 1 for l in recs) < 70000:
                 recs = recs + [l.replace("q", "d", 1) for l in recs]
